@@ -1,4 +1,15 @@
 #!/bin/bash
 . "$(dirname "$0")/../../lib.sh"
 build_e1 c19 tars/util/gpool
-exec "$WORK/bin/c19" "$@"
+# listener part: the pool as tcpHandler/udpHandler use it (scenarios and oracle live in checks/c10, mode C10_AS=C19)
+rc1=0
+case " $* " in *" --replay "*) ;; *)
+  E1_SRC=c10 build_e1 c19net $TARS_E1_ARGS
+  rm -f "$VERIF_ROOT/evidence/C19.net.json"
+  C10_AS=C19 VERIF_EVIDENCE_SUFFIX=.net "$WORK/bin/c19net" "$@"; rc1=$?
+  ;;
+esac
+E1_FOLD=.net "$WORK/bin/c19" "$@"; rc2=$?
+rm -f "$VERIF_ROOT/evidence/C19.net.json"
+[ $rc1 -gt $rc2 ] && exit $rc1
+exit $rc2
